@@ -54,7 +54,7 @@ func (r *Run) builtin(fr *Frame, b *ssa.Builtin, cc *ssa.CallCommon, args []Valu
 			for i, e := range elems {
 				arr[s.off+s.len+i] = e
 			}
-			return &SliceV{arr: s.arr, off: s.off, len: n, cap: s.cap}
+			return &SliceV{arr: s.arr, base: s.base, off: s.off, len: n, cap: s.cap}
 		}
 		if len(elems) == 0 {
 			return s
